@@ -4,6 +4,7 @@ package main
 // TLC exported from MC_ReaderFaults.  The harness only runs and projects; Trace_ReaderFaults judges.
 
 import (
+	"io/ioutil"
 	"bufio"
 	"bytes"
 	"crypto/sha256"
@@ -247,6 +248,13 @@ func rfInputs(parser string, r *rand.Rand, thorough bool) []*rfInput {
 		add(name, b)
 		if len(b) > 4 {
 			add(name+"/trunc", b[:len(b)*2/3])
+			// a few bytes missing at the end (fewer than a caller's preamble may have been long): what is missing is missing,
+			// whatever a source's Size() / Len() / capacity suggests
+			for _, cut := range []int{1, 13, 40} {
+				if len(b) > cut+4 {
+					add(fmt.Sprintf("%s/trunc-%d", name, cut), b[:len(b)-cut])
+				}
+			}
 			c := append([]byte{}, b...)
 			c[len(c)/2] ^= 0x10
 			add(name+"/flip", c)
@@ -423,7 +431,10 @@ func rfRun(args []string) error {
 			}
 			// other kinds of source the code may special-case (type switches, fast paths): the same bytes behind a *bytes.Buffer
 			// whose backing array has spare capacity (filled with plausible continuation bytes), a *bytes.Reader, a *bufio.Reader
-			for _, kind := range []string{"bytes.Buffer+cap", "bytes.Buffer", "bytes.Reader", "bufio.Reader", "recvbuf16", "recvbuf100", "recvbuf1460"} {
+			// ... and a reader with a Size() method that has been PARTLY CONSUMED before the parser gets it (the caller read a
+			// k-byte preamble of its own): Size() is the length of everything, not of what is left
+			for _, kind := range []string{"bytes.Buffer+cap", "bytes.Buffer", "bytes.Reader", "bufio.Reader", "recvbuf16", "recvbuf100", "recvbuf1460",
+				"bytes.Reader+consumed1", "bytes.Reader+consumed9", "bytes.Reader+consumed64", "io.SectionReader+consumed9"} {
 				var rd io.Reader
 				var pos func() int
 				switch kind {
@@ -441,6 +452,18 @@ func rfRun(args []string) error {
 				case "bytes.Reader":
 					br := bytes.NewReader(in.b)
 					rd, pos = br, func() int { return len(in.b) - br.Len() }
+				case "bytes.Reader+consumed1", "bytes.Reader+consumed9", "bytes.Reader+consumed64", "io.SectionReader+consumed9":
+					k := map[string]int{"bytes.Reader+consumed1": 1, "bytes.Reader+consumed9": 9, "bytes.Reader+consumed64": 64, "io.SectionReader+consumed9": 9}[kind]
+					whole := append(bytes.Repeat([]byte{0x50}, k), in.b...)
+					if kind == "io.SectionReader+consumed9" {
+						sr := io.NewSectionReader(bytes.NewReader(whole), 0, int64(len(whole)))
+						io.CopyN(ioutil.Discard, sr, int64(k))
+						rd, pos = sr, func() int { p, _ := sr.Seek(0, io.SeekCurrent); return int(p) - k }
+					} else {
+						br := bytes.NewReader(whole)
+						io.CopyN(ioutil.Discard, br, int64(k))
+						rd, pos = br, func() int { return len(in.b) - br.Len() }
+					}
 				case "recvbuf16", "recvbuf100", "recvbuf1460":
 					// a receive buffer: a bytes.Buffer (so the type has Len, Bytes, WriteTo ...) refilled segment by segment; what
 					// its methods report concerns the buffered part only, more arrives later
